@@ -163,7 +163,10 @@ CLAIMED = {
             "operations are reported too (as a search engine does), provided the report is truthful and no negation lies "
             "strictly between the element and its operation (examples show both conditions are needed).",
             NOTE_COMMON, "5 C16"),
-    "C17": ("Lean 4 proof (erase tags = text, balanced, render, class per character, parsimonious = same classes)" + T_CORR,
+    "C17": ("Lean 4 proof (erase tags = text, balanced, render, class per character, parsimonious = same classes) + "
+            "HTMLMarker.mark_node with its while loop translated from the source by symbolic execution (tools/pysym.py; "
+            "Props/GenMark: the model's markLay / parentClass are the translated method and the iteration of its translated "
+            "loop body, which terminates)" + T_CORR,
             "Theorems for any tree, any path sets, both modes: erasing the tags from the token-level output gives the tree's "
             "text; tags are balanced; the rendered string is the implementation's output; each character carries the class "
             "of the innermost marked ancestor; the parsimonious mode gives the same class per character.",
